@@ -217,7 +217,7 @@ def part_traces(ctx, rep):
             ([65516], [65515, 1], [1, 65516, 2], [65516, 65516], [65514, 65515, 65516], [4092, 65516, 996], [65516] * 4):
         for style in ((3,) if ctx.quick else (3, 3, 2)):
             record([pattern(n) for n in sizes] + [None], b"", None, style, False, 65536, big, f"payloads of {sizes} bytes, random partition")
-    ctx.sample({"kind": "trace", "what": meta[1]["what"], "stream_len": len(small[0]["stream"]), "events": small[0]["ev"][:12]}, limit=12)
+    ctx.sample({"kind": "trace", "what": meta[1]["what"], "stream_len": len(small[0]["stream"]), "events": small[len(small) // 2]["ev"][:14]}, limit=20)
     base = {"Scen": '"mixed"', "MaxOps": 1000000, "MaxItems": 0, "MaxLen": 0, "Gen": "FALSE", "EmptyReadAsserts": "FALSE"}
     with ThreadPoolExecutor(2) as ex:
         f1 = ex.submit(run_tlc, ctx, "StreamRdTrace.tla", {**base, "RBuf": 7}, small, "payload lists")
@@ -317,11 +317,82 @@ def part_pack_traces(ctx, rep, repo):
         meta[i + 1] = {"what": f"rbufsize {rbuf}, zlib_bufsize {zbuf}, partition style {style}", "chunks": chunks, "rbuf": rbuf, "zbuf": zbuf}
         ctx.count()
         ctx.nontrivial(hash(("packtrace", data, tuple(log), zbuf, rbuf)))
-    ctx.sample({"kind": "pack-trace", "pack_len": len(pack), "what": meta[1]["what"], "events": [e[:3] + e[4:] for e in traces[0]["ev"][:10]]}, limit=12)
+    ctx.sample({"kind": "pack-trace", "pack_len": len(pack), "what": meta[1]["what"], "events": [e[:3] + e[4:] for e in traces[0]["ev"][:10]]}, limit=20)
     nv = validate(ctx, rep, "StreamRdPackTrace.tla", {"N": 0, "HS": 20, "MaxOps": 1000000, "Sizes": "{}", "Gen": "FALSE", "HashAfterPop": "TRUE"},
                   traces, meta, "packs from C git", pack_sig)
     ctx.validated(nv)
     ctx.log(f"traces: {nv} recorded PackStreamReader.read_objects executions judged by TLC")
+
+
+# --------------------------------------------------------------------------- report-status through the side band, end to end
+def part_report_status(ctx, rep):
+    """server.py:ReceivePackHandler._report_status (BufferedPktLineWriter -> write_sideband) read back by
+    client.py:_handle_receive_pack_tail (read_pkt_seq -> _read_side_band64k_data -> PktLineParser) under
+    random partitions.  Private entry points: if they moved, this part is skipped with a drift note."""
+    try:
+        from dulwich.client import LocalGitClient, ReportStatusParser
+        from dulwich.protocol import Protocol
+        from dulwich.repo import MemoryRepo
+        from dulwich.server import DictBackend, ReceivePackHandler
+
+        def server_bytes(status, sideband):
+            w = []
+            h = ReceivePackHandler(DictBackend({b"/": MemoryRepo()}), [b"/"], Protocol(None, w.append))
+            h.set_client_capabilities([b"report-status", b"delete-refs", b"ofs-delta"] + ([b"side-band-64k"] if sideband else []))
+            h._report_status(status)
+            return b"".join(w)
+
+        def client_read(data, chunks, rbuf, sideband):
+            c = LocalGitClient()
+            c._report_status_parser = ReportStatusParser()
+            c.protocol_version = 0
+            return c._handle_receive_pack_tail(rprotocol(Wire(data, chunks), rbuf),
+                                               {b"report-status"} | ({b"side-band-64k"} if sideband else set()), None)
+        for sb in (True, False):
+            if client_read(server_bytes([(b"unpack", b"ok"), (b"r", b"ok")], sb), None, 65536, sb) != {b"r": None}:
+                raise ValueError("unexpected result of the smoke run")
+    except Exception as e:  # noqa: BLE001
+        rep.drift(f"report-status path not exercised: {type(e).__name__}: {e}")
+        return
+    rng = ctx.rng
+    n = 0
+    for nrefs in ctx.pick([0, 3, 2500], [0, 1, 3, 40, 1600, 2500, 6000]):
+        status = [(b"unpack", b"ok")] + [(b"refs/heads/b%05d" % i, b"ok" if i % 3 else b"failed to write") for i in range(nrefs)]
+        want = {r: (None if m == b"ok" else m.decode()) for (r, m) in status[1:]}
+        for sideband in (True, False):
+            o = outcome(server_bytes, status, sideband)
+            rp = {"kind": "none", "nrefs": nrefs, "sideband": sideband}
+            site = "dulwich/server.py:ReceivePackHandler._report_status"
+            if o[0] != "ok":
+                rep.v(site, "TotalEncoder", f"-> {okind(o)}", f"{nrefs} ref statuses, side-band {sideband}: {o}", rp)
+                continue
+            data = o[1]
+            try:
+                frames = split_frames(data)
+                bad = [len(pl) + 4 for (_, pl) in frames if pl is not None and len(pl) + 4 > 65520]
+            except ValueError as e:
+                frames, bad = None, [str(e)]
+            if bad:
+                rep.v(site, "NoMalformedFrame", "report-status frames", f"{nrefs} ref statuses, side-band {sideband}: {bad[:3]}", rp)
+                continue
+            for style in ctx.pick((2, 3), (0, 1, 2, 3, 3, 2)):
+                if style == 0 and len(data) > 20000:
+                    continue
+                chunks = random_chunks(rng, len(data), style)
+                rbuf = rng.choice([7, 4096, 65536])
+                r = outcome(client_read, data, chunks, rbuf, sideband)
+                n += 1
+                ctx.count()
+                ctx.nontrivial(hash(("report-status", nrefs, sideband, tuple(chunks[:2000]), rbuf)))
+                if r != ("ok", want):
+                    got = r if r[0] != "ok" else f"{len(r[1])} statuses, first difference {next(((k, v, want.get(k)) for k, v in r[1].items() if want.get(k, 0) != v), None)}"
+                    rep.v("dulwich/client.py:GitClient._handle_receive_pack_tail", "TotalDecoder" if r[0] == "crash" else "RoundTrip",
+                          f"report-status side-band={sideband} -> {okind(r) if r[0] != 'ok' else 'wrong statuses'}",
+                          f"{nrefs} ref statuses written by the server ({len(data)} bytes, {len(frames)} frames), read with rbufsize {rbuf}: {got}", rp)
+            if nrefs == 2500 and sideband:
+                ctx.cov["report_status_2500_refs"] = {"bytes": len(data), "outer_frames": len(frames), "largest_frame": max(len(pl or b"") + 4 for (_, pl) in frames)}
+    ctx.validated(n)
+    ctx.log(f"report-status: {n} server -> client executions under random partitions")
 
 
 # --------------------------------------------------------------------------- C git as third party
